@@ -94,3 +94,42 @@ def supergates_overlapping_output_cones(case, v):
             if any(types[n] not in ("input", "0", "1", "x") for n in shared):
                 return True
     return False
+
+
+def _dup_parity_nets(nl):
+    """Nets defined by a parity gate / expression that lists the same net twice."""
+    out = set()
+
+    def has_dup(e):
+        if e[0] in ("xor", "xnor") and e[2][0] == "id" and e[2] == e[3]:
+            return True
+        if e[0] == "not":
+            return has_dup(e[2])
+        if e[0] == "tern":
+            return any(has_dup(x) for x in e[1:])
+        if e[0] in ("and", "or", "xor", "xnor"):
+            return has_dup(e[2]) or has_dup(e[3])
+        return False
+
+    for s in nl["stmts"]:
+        if s["k"] == "prim" and s["gate"] in ("xor", "xnor"):
+            for inst, o, ops in s["insts"]:
+                ids = [tuple(x) for x in ops]
+                if len(ids) != len(set(ids)):
+                    out.add(o)
+        elif s["k"] == "assign":
+            for lhs, e in s["assigns"]:
+                if has_dup(e):
+                    out.add(lhs)
+    return out
+
+
+@classifier
+def parity_gate_with_repeated_operand(case, v):
+    """`xor g(o, a, a)` / `assign o = a ^ a`: the graph model holds one edge a->gate, so
+    the gate is read as a 1-input parity gate (o = a, resp. ~a) instead of 0 (resp. 1)."""
+    nl = case.get("nl")
+    if not nl:
+        return False
+    d = v["detail"]
+    return any(d.startswith(f"net {n!r} ") for n in _dup_parity_nets(nl))
